@@ -20,7 +20,8 @@ EXPLANATION = (
     "Interpreter::interpret (in rusty_basic and the value crates it calls) are each audited, and the "
     "implicit ones (bounds check of an index expression, zero check of integer / and %) are proved from "
     "their dominating comparisons or audited; (R7) the error path of the fetch-execute loop unwinds the "
-    "context states a failing statement had opened (shared with C05.R6); (R11) after every user block the next emitted instruction is preceded by a resume point (shared with C05.R2): RESUME NEXT after the last statement of the main module must not run into a subprogram body; (R12) array subscripts and bounds are refused unless castable to a numeric type (shared with C12.R9), so nothing unresolved reaches the generator.")
+    "context states a failing statement had opened (shared with C05.R6); (R11) after every user block the next emitted instruction is preceded by a resume point (shared with C05.R2): RESUME NEXT after the last statement of the main module must not run into a subprogram body; (R12) array subscripts and bounds are refused unless castable to a numeric type (shared with C12.R9), so nothing unresolved reaches the generator."
+    " (R14 = C05.R11) RESUME label leaves every active call, cutting the VM stacks back to what the outermost call recorded.")
 NOT_DECIDED = ["panic-freedom in general (arithmetic overflow in the debug profile, stack depth, panics inside std)"]
 
 PCL = labels.PCL
